@@ -1265,4 +1265,42 @@ example : (Api.step [[([0x58, 0x2d, 0xc3, 0xa9], [0x63, 0x61, 0x66, 0xc3, 0xa9])
     (.k1 .getItem 0 (.s [0x58, 0x2d, 0xe9]))).2 = .str [0x63, 0x61, 0x66, 0xe9, 0x2c, 0x20, 0xdcff] := by decide
 example : (Api.step [[]] (.k1 .getItem 0 (.s [0xd800]))).2 = .unicodeError := by decide
 
+
+/-- **Refinement at the API, for all call sequences.** Whenever a sequence of `Headers` calls (str or bytes
+    arguments) raises no UnicodeEncodeError, its trace — every returned `str` taken back through `_always_bytes`, and
+    the fields of every object after every call — is the trace of the abstract case-insensitive ordered multimap
+    on the lowered operations. -/
+theorem api_run_refines (as : List AOp) : ∀ (st : Store) (ops : List Op),
+    Api.lowerAll st as = some ops → (∀ a ∈ as, a.ok = true) →
+    Api.encTrace (Api.run st as) = some (Spec.run st ops) := by
+  induction as with
+  | nil =>
+    intro st ops h _
+    simp only [Api.lowerAll, Option.some.injEq] at h; subst h; rfl
+  | cons a as ih =>
+    intro st ops h hok
+    simp only [Api.lowerAll] at h
+    cases hfs : st[a.target]? with
+    | none => simp [hfs] at h
+    | some fs =>
+      simp only [hfs] at h
+      cases hl : Api.lower fs a with
+      | none => simp [hl] at h
+      | some op =>
+        simp only [hl, Option.map_eq_some_iff] at h
+        obtain ⟨ops', hops', rfl⟩ := h
+        have haok := hok a (by simp)
+        have hwf : a.wf = true := by
+          cases a <;> first | exact haok | rfl
+        have hup : ∀ t ps, a = .update t ps → (Api.convPairs ps).2 = true := by
+          intro t ps e; subst e; exact haok
+        have hs := api_state st fs a op hfs hl
+        have hr := api_returns st fs a op hfs hl hwf hup
+        have hih := ih (C35.step st op).1 ops' hops' (fun b hb => hok b (by simp [hb]))
+        rw [← run_refines] at hih ⊢
+        simp only [Api.run, C35.run, Api.encTrace, hs, hr, hih]
+
+example : Api.lowerAll [[]] [.kv .setItem 0 (.s [0x41]) (.b [0x31]), .k1 .getItem 0 (.b [0x61])]
+    = some [.setItem 0 [0x41] [0x31], .getItem 0 [0x61]] := by rfl
+
 end MitmVerif.Props.C35
